@@ -14,7 +14,7 @@
    with the recorded call tree of every corpus value on every run, as is schema_of with the
    real SCHEMA constant).  C14_builtin_rows_conform then says: the rows give every such type a
    schema that its own items conform to. *)
-From PV Require Import Base DataModel Schema SchemaDecl SchemaConv SchemaOps Conform Ser De ConformFacts GenSchemaImpls SchemaImpls SchemaImplFacts.
+From PV Require Import Base DataModel Schema SchemaDecl SchemaConv SchemaOps Conform Ser De ConformFacts GenSchemaImpls SchemaImpls SchemaImplFacts GenDeriveSchema.
 Open Scope N_scope.
 
 (* conforming items have exactly the shape the schema prescribes *)
@@ -66,8 +66,23 @@ Example C14_example :
   conforms 1 (NSeq [NSome (NVariant [69] 0 [66] (NUnitStruct [66]))]) C14_schema = false.
 Proof. repeat split; vm_compute; reflexivity. Qed.
 
+(* the Schema derive of postcard-derive/src/schema.rs (do_derive_schema, Generator::new,
+   generate_type, generate_struct, generate_variants, add_trait_bounds) is, token for token up to
+   renaming of locals, the code whose output the harness's restated declarations (src/sty.rs) and
+   the model's emit rules were written against (tools/fn_templates.json) *)
+Theorem C14_derive_is_the_source :
+  derive_schema_fns_matched =
+  [[97; 100; 100; 95; 116; 114; 97; 105; 116; 95; 98; 111; 117; 110; 100; 115];
+   [100; 111; 95; 100; 101; 114; 105; 118; 101; 95; 115; 99; 104; 101; 109; 97];
+   [103; 101; 110; 101; 114; 97; 116; 101; 95; 115; 116; 114; 117; 99; 116];
+   [103; 101; 110; 101; 114; 97; 116; 101; 95; 116; 121; 112; 101];
+   [103; 101; 110; 101; 114; 97; 116; 101; 95; 118; 97; 114; 105; 97; 110; 116; 115];
+   [110; 101; 119]].
+Proof. exact (eq_refl derive_schema_fns_matched). Qed.
+
 Print Assumptions C14_conforms_typed.
 Print Assumptions C14_schema_reader_exact.
 Print Assumptions C14_builtin_rows_total.
 Print Assumptions C14_builtin_rows_conform.
 Print Assumptions C14_alias_rows.
+Print Assumptions C14_derive_is_the_source.
